@@ -309,9 +309,9 @@ def cover_tests(ctx, spec_listed):
     jobs = []
     # (thorough: the shortest prefix of every coarse class still gets every token of the full alphabet; the fractions bound
     #  the rest so that the whole tier stays within about an hour on 16 cores)
-    plans = [("cover", "doc", 3, T_CORE if q else t_all(), 0.025 if q else 0.2),
-             ("cover_afe", "doc", 4, T_FMT, 0.02 if q else 0.3),
-             ("cover", "tableish", 2, T_CORE if q else t_all(), 0.02 if q else 0.1),
+    plans = [("cover", "doc", 3, T_CORE if q else t_all(), 0.025 if q else 0.06),
+             ("cover_afe", "doc", 4, T_FMT, 0.02 if q else 0.1),
+             ("cover", "tableish", 2, T_CORE if q else t_all(), 0.02 if q else 0.04),
              ("cover_tbl", "doc", 4, T_TBL, 1.0)]
     for theme, cont, n, toks, frac in plans:
         r = ctx.tlc("MC_TreeCover", cover_cfg(theme, cont, n, spec_listed), "cover-%s-%s" % (theme, cont), heap="16g", keep_records=False)
@@ -357,8 +357,8 @@ def run(ctx):
         plan.append((theme, "doc", False, 3))
     if q:
         plan = [(t, "doc", False, 3 if t in ("formatting", "table", "doctype") else 2) for t, _, _, _ in plan]
-    plan += [("frameset", "doc", False, 4 if q else 5), ("template", "doc", False, 2 if q else 4), ("template", "common", False, 2 if q else 3)]
-    plan += [("head", "doc", True, 2 if q else 4), ("table", "tableish", False, 2 if q else 3), ("blocks", "common", False, 2 if q else 3),
+    plan += [("frameset", "doc", False, 4), ("template", "doc", False, 2 if q else 3), ("template", "common", False, 2 if q else 3)]
+    plan += [("head", "doc", True, 2 if q else 3), ("table", "tableish", False, 2 if q else 3), ("blocks", "common", False, 2 if q else 3),
              ("foreign", "common", False, 2 if q else 3), ("head", "rawish", False, 2 if q else 3), ("select", "tableish", False, 2 if q else 3)]
     if not q:
         plan += [(t, "all", False, 2) for t in ("formatting", "table", "blocks", "foreign", "select", "ruby")]
@@ -381,8 +381,8 @@ def run(ctx):
     # random deep behaviours (TLC -simulate) over the union alphabet and two themes
     # (TLC's simulator evaluates the invariants - and so exports - on every successor it generates: the number of
     #  behaviours is about num x depth x alphabet size)
-    for theme, cont, num, depth in (("cover", "doc", 10 if q else 100, 9), ("table", "common", 8 if q else 60, 8),
-                                    ("foreign", "doc", 8 if q else 60, 8), ("foreignnames", "doc", 6 if q else 60, 9)):
+    for theme, cont, num, depth in (("cover", "doc", 10 if q else 50, 9), ("table", "common", 8 if q else 30, 8),
+                                    ("foreign", "doc", 8 if q else 30, 8), ("foreignnames", "doc", 6 if q else 30, 9)):
         run_theme(ctx, theme, cont, False, depth, spec_listed, "sim-%s-%s" % (theme, cont), simulate=(num, depth))
     # transition cover (spec-derived tests, judged by TLC with snapshots)
     cjobs = cover_tests(ctx, spec_listed)
